@@ -1031,10 +1031,10 @@ func genPegRules(repo, out string) (err error) {
 	b.WriteString("memoizedResult and matchDot are no longer only read: generator `pegruntime` translates those bodies statement by\n")
 	b.WriteString("statement (Gen/PegRuntimeGo.lean) and Props/PegRuntimeGen.lean proves them (named in brackets). What remains the\n")
 	b.WriteString("trusted reading (stated, not proved; text pinned here): `parse`/`Parse`/`Reset`/the option loop of Init. The\n")
-	b.WriteString("COMPOSITION — that the rule functions running on this runtime compute `Peg.run` — is proved with memoisation OFF\n")
-	b.WriteString("(Peg/RunGo.lean `runGo`, Props/RunGoGen.lean `RG_*`); with memoisation ON (determinism of a rule function in\n")
-	b.WriteString("(buffer, position), hence transparency of the cache) the full statement is the unproved `def RG_memo_full`, its\n")
-	b.WriteString("one-step laws are proved, and C17 validates it four-way per string (request `gorun`).\n")
+	b.WriteString("COMPOSITION — that the rule functions running on this runtime compute `Peg.run` — is proved (Peg/RunGo.lean\n")
+	b.WriteString("`runGo`, Props/RunGoGen.lean `RG_*`): with memoisation off, and with the table in use (`RG_memo_full_holds`,\n")
+	b.WriteString("`RG_go_parse_memo`: every stored entry is what a rerun of that rule at that position answers, hence the cache is\n")
+	b.WriteString("transparent); C17 also validates it four-way per string (request `gorun`).\n")
 	b.WriteString("  * reset: buffer = []rune(Buffer) ++ [endSymbol] (a string never decodes to 1114112, so the end symbol\n")
 	b.WriteString("    occurs exactly at index len); position, tokenIndex = 0, 0; the memo table is emptied. `input[pos]? = none`\n")
 	b.WriteString("    of the Lean model is `buffer[position] == endSymbol`; no test reads past it because every test that\n")
